@@ -561,7 +561,7 @@ void h_aligned_zero(void) {
   if (r != NULL) {
     uint8_t* q = (uint8_t*)r;
     CHECK(in_new(q) && new_live, "result is the fresh block");
-    CHECK(malloc_zero, "the core was asked for zeroed memory");
+    /* (how the zeroes get there -- asking the core for zeroed memory or clearing afterwards -- is the implementation's choice) */
     size_t us = new_usable - (size_t)(q - new_start);
     CHECK(us >= size, "usable >= size");
     for (size_t i = 0; i < NEWCAP; i++) { if (i < us) CHECK(q[i] == 0, "zeroing aligned allocation reads zero over its whole usable size"); }
